@@ -967,3 +967,285 @@ Proof.
     cbn [fst]; rewrite ?orb_false_r, ?orb_true_r; try (split; reflexivity).
   cbn [wf_setting] in Hw. destruct (kind_of b); try discriminate; cbn [fst]; rewrite ?orb_false_r, ?orb_true_r; split; reflexivity.
 Qed.
+
+(* ---- one group ------------------------------------------------------------------------------------------ *)
+Definition run (ss : list setting) (st : bstate) : bstate := fold_left (fun st s => interp_step s st) ss st.
+
+Lemma count_if_cons {A} (f : A -> bool) x l : count_if f (x :: l) = b2z (f x) + count_if f l.
+Proof. unfold count_if. cbn [filter]. destruct (f x); cbn [b2z]; rewrite ?len_cons; lia. Qed.
+Lemma count_if_nonneg {A} (f : A -> bool) l : 0 <= count_if f l.
+Proof. unfold count_if. apply len_nonneg. Qed.
+
+Lemma pack_cons s ss : pack (s :: ss) = enc s ++ pack ss.
+Proof. reflexivity. Qed.
+Lemma run_nil ss st : pack ss = [] -> run ss st = st.
+Proof.
+  revert st. induction ss as [|s ss IH]; intros st H; [reflexivity|].
+  rewrite pack_cons in H. apply app_eq_nil in H. destruct H as [H1 H2].
+  cbn [run fold_left]. rewrite interp_nil by exact H1. apply IH. exact H2.
+Qed.
+
+Definition sep_or_end (post : list Z) : Prop := post = [] \/ exists r, post = Separator :: r.
+
+Lemma nz_mid0 pre e post : 0 < len e -> nz (pre ++ e ++ post) (len pre) = nz e 0.
+Proof. intros H. rewrite <- (nz_mid pre e post 0) by lia. f_equal. lia. Qed.
+
+Lemma build_loop_sep pre r f st :
+  build_loop true (S f) (pre ++ Separator :: r) (len pre) st = Ok (st, len pre + 1).
+Proof.
+  rewrite build_loop_S. pose proof (len_nonneg pre). pose proof (len_nonneg r).
+  assert (Hc : pre ++ Separator :: r = pre ++ [Separator] ++ r) by reflexivity.
+  assert (Hl : len (pre ++ Separator :: r) = len pre + 1 + len r) by (rewrite len_app, len_cons; lia).
+  assert (N : next (pre ++ Separator :: r) (len pre) = Ok (len pre + 1)).
+  { apply next_fixed; [lia|]. rewrite Hc. rewrite nz_mid0 by (cbn; lia). reflexivity. }
+  rewrite N, bind_Ok. cbv zeta. rewrite fixn_fwd by lia. replace (len pre + 1 <=? len (pre ++ Separator :: r)) with true by lia.
+  rewrite !idx_in by lia. rewrite !bind_Ok.
+  rewrite Hc. rewrite nz_mid0 by (cbn; lia). reflexivity.
+Qed.
+
+Lemma build_loop_pack : forall ss pre post fuel p z,
+  forallb wf_setting ss = true ->
+  count_if is_conn ss + b2z (has_conn p) <= 1 -> count_if is_trans ss + b2z (has_trans p) <= 1 ->
+  pack ss ++ post <> [] -> sep_or_end post ->
+  (length (pack ss) + (if is_nil post then 0 else 1) <= fuel)%nat ->
+  build_loop true fuel (pre ++ pack ss ++ post) (len pre) (p, z) =
+  Ok (run ss (p, z), len pre + len (pack ss) + (if is_nil post then 0 else 1)).
+Proof.
+  induction ss as [|s ss IH]; intros pre post fuel p z Hw Hc Ht Hne Hpost Hf.
+  - cbn [pack flat_map app] in *. destruct Hpost as [->|[r ->]]; [congruence|].
+    cbn [is_nil] in Hf. destruct fuel as [|f]; [lia|]. rewrite build_loop_sep. cbn [is_nil run fold_left]. rewrite len_nil. f_equal. f_equal. lia.
+  - cbn [forallb] in Hw. apply andb_true_iff in Hw. destruct Hw as [Hw1 Hw2].
+    rewrite count_if_cons in Hc, Ht. pose proof (count_if_nonneg is_conn ss). pose proof (count_if_nonneg is_trans ss).
+    destruct (list_eq_dec Z.eq_dec (enc s) []) as [E|E].
+    + rewrite pack_cons, E in *. cbn [app] in *. cbn [run fold_left]. rewrite (interp_nil s) by exact E.
+      apply IH; try assumption; destruct (is_conn s), (is_trans s), (has_conn p), (has_trans p); cbn [b2z] in *; lia.
+    + pose proof (all_settings_ok s Hw1 E pre (pack ss ++ post) p z) as OK.
+      assert (Hcs : is_conn s = true -> has_conn p = false) by (destruct (is_conn s), (has_conn p); cbn [b2z] in *; intros; try reflexivity; try discriminate; lia).
+      assert (Hts : is_trans s = true -> has_trans p = false) by (destruct (is_trans s), (has_trans p); cbn [b2z] in *; intros; try reflexivity; try discriminate; lia).
+      specialize (OK Hcs Hts). cbv zeta in OK. destruct OK as [[r [Hr [Hfix _]]] [Hsep Hbs]].
+      rewrite pack_cons. rewrite <- app_assoc.
+      set (c := pre ++ enc s ++ pack ss ++ post) in *.
+      pose proof (len_nonneg pre). pose proof (len_nonneg (pack ss ++ post)).
+      assert (HL : 0 < len (enc s)) by (destruct (enc s); [congruence|rewrite len_cons; pose proof (len_nonneg l); lia]).
+      assert (Hlc : len c = len pre + len (enc s) + len (pack ss ++ post)) by (subst c; rewrite !len_app; lia).
+      assert (HLn : (0 < length (enc s))%nat) by (unfold len in HL; lia).
+      rewrite pack_cons, app_length in Hf.
+      destruct fuel as [|f]; [lia|]. rewrite build_loop_S.
+      rewrite Hr, bind_Ok. cbv zeta. rewrite Hfix.
+      rewrite (idx_in c (len pre + len (enc s) - 1)) by lia. rewrite bind_Ok.
+      subst c. rewrite (idx_mid0 pre (enc s) (pack ss ++ post) (len pre) eq_refl) by lia. rewrite bind_Ok.
+      fold (tag_of s). rewrite Hsep. rewrite Hbs, bind_Ok.
+      set (c := pre ++ enc s ++ pack ss ++ post) in *.
+      destruct (interp_step s (p, z)) as [p1 z1] eqn:Est.
+      pose proof (interp_flags s p z Hw1) as [Hfc Hft]. rewrite Est in Hfc, Hft. cbn [fst] in Hfc, Hft.
+      cbn [run fold_left]. rewrite Est. fold (run ss (p1, z1)).
+      rewrite len_app. 
+      destruct (list_eq_dec Z.eq_dec (pack ss ++ post) []) as [E2|E2].
+      * rewrite E2 in *. rewrite len_nil in *.
+        replace ((0 <=? len pre + len (enc s)) && (len pre + len (enc s) <? len c)) with false by lia.
+        apply app_eq_nil in E2. destruct E2 as [E3 E4]. rewrite run_nil by exact E3. rewrite E3, E4, len_nil. cbn [is_nil].
+        f_equal. f_equal. lia.
+      * assert (0 < len (pack ss ++ post)) by (destruct (pack ss ++ post); [congruence|rewrite len_cons; pose proof (len_nonneg l); lia]).
+        replace ((0 <=? len pre + len (enc s)) && (len pre + len (enc s) <? len c)) with true by lia.
+        subst c. rewrite (app_assoc pre (enc s)). replace (len pre + len (enc s)) with (len (pre ++ enc s)) by (rewrite len_app; lia).
+        rewrite IH; try assumption.
+        -- f_equal. f_equal. rewrite len_app. lia.
+        -- rewrite Hfc. destruct (is_conn s), (has_conn p); cbn [b2z orb] in *; lia.
+        -- rewrite Hft. destruct (is_trans s), (has_trans p); cbn [b2z orb] in *; lia.
+        -- lia.
+Qed.
+
+(* ---- several groups -------------------------------------------------------------------------------------- *)
+Definition keep (ss : list setting) : bool := negb (is_nil (pack ss)).
+Definition selg (g : Z) (r : bstate) : Z := if 0 <? snd r then snd r else g.
+
+Lemma pack_head_not_sep ss : forallb wf_setting ss = true -> pack ss <> [] -> nz (pack ss) 0 <> Separator.
+Proof.
+  induction ss as [|s ss IH]; intros Hw Hne; [exfalso; apply Hne; reflexivity|].
+  cbn [forallb] in Hw. apply andb_true_iff in Hw. destruct Hw as [Hw1 Hw2]. rewrite pack_cons in *.
+  destruct (list_eq_dec Z.eq_dec (enc s) []) as [E|E].
+  - rewrite E in *. cbn [app] in *. apply IH; assumption.
+  - assert (Hn : nz (enc s ++ pack ss) 0 = tag_of s).
+    { unfold tag_of. destruct (enc s) as [|x l]; [congruence|]. reflexivity. }
+    rewrite Hn. intros Hs.
+    destruct s; cbn [wf_setting] in Hw1; unfold tag_of in Hs; cbn [enc] in Hs, E; cbv zeta in Hs, E;
+      repeat (match type of E with (if ?b then _ else _) <> [] => destruct b end);
+      try congruence; cbn [app] in Hs; rewrite ?nz_0 in Hs; try discriminate Hs.
+    subst b. discriminate Hw1.
+Qed.
+
+Lemma wf_group_parts ss : wf_group ss = true ->
+  forallb wf_setting ss = true /\ count_if is_conn ss <= 1 /\ count_if is_trans ss <= 1.
+Proof. unfold wf_group. intros H. apply andb_true_iff in H. destruct H as [H H3]. apply andb_true_iff in H. destruct H as [H1 H2]. repeat split; [assumption|lia|lia]. Qed.
+
+Lemma build_group_pack ss pre post : wf_group ss = true -> pack ss <> [] -> sep_or_end post ->
+  build_group true (pre ++ pack ss ++ post) (len pre) =
+  Ok (interp_group ss, len pre + len (pack ss) + (if is_nil post then 0 else 1)).
+Proof.
+  intros Hw Hne Hpost. apply wf_group_parts in Hw. destruct Hw as [Hw [Hc Ht]].
+  unfold build_group. pose proof (len_nonneg pre). pose proof (len_nonneg post).
+  assert (0 < len (pack ss)) by (destruct (pack ss); [congruence|rewrite len_cons; pose proof (len_nonneg l); lia]).
+  replace (0 <? len (pre ++ pack ss ++ post)) with true by (rewrite !len_app; lia).
+  apply build_loop_pack; try assumption.
+  - change (has_conn prof0) with false. cbn [b2z]. lia.
+  - change (has_trans prof0) with false. cbn [b2z]. lia.
+  - intros E. apply app_eq_nil in E. destruct E. congruence.
+  - rewrite !app_length. destruct Hpost as [->|[r ->]]; cbn [is_nil length]; lia.
+Qed.
+
+Lemma join_sep_cons2 x y r : join_sep (x :: y :: r) = x ++ Separator :: join_sep (y :: r).
+Proof. reflexivity. Qed.
+
+Lemma build_top_join : forall gl pre fuel e g, forallb wf_group gl = true ->
+  (length (join_sep (map pack gl)) < fuel)%nat ->
+  build_top true fuel (pre ++ join_sep (map pack gl)) (len pre) e g =
+  Ok (e ++ map fst (map interp_group (filter keep gl)), fold_left selg (map interp_group (filter keep gl)) g).
+Proof.
+  induction gl as [|g1 gl IH]; intros pre fuel e g Hw Hf.
+  - cbn [map join_sep filter fold_left]. rewrite !app_nil_r. destruct fuel as [|f]; [lia|]. cbn [build_top].
+    replace (len pre <? len pre) with false by lia. reflexivity.
+  - cbn [forallb] in Hw. apply andb_true_iff in Hw. destruct Hw as [Hw1 Hw2].
+    pose proof (len_nonneg pre).
+    destruct gl as [|g2 gl].
+    + (* the last group *)
+      cbn [map join_sep filter] in *. unfold keep. destruct (list_eq_dec Z.eq_dec (pack g1) []) as [E|E].
+      * rewrite E. cbn [is_nil negb map fold_left]. rewrite !app_nil_r. destruct fuel as [|f]; [lia|]. cbn [build_top].
+        replace (len pre <? len pre) with false by lia. reflexivity.
+      * assert (0 < len (pack g1)) by (destruct (pack g1); [congruence|rewrite len_cons; pose proof (len_nonneg l); lia]).
+        replace (is_nil (pack g1)) with false by (destruct (pack g1); [congruence|reflexivity]). cbn [negb map fold_left].
+        destruct fuel as [|f]; [lia|]. cbn [build_top].
+        replace (len pre <? len (pre ++ pack g1)) with true by (rewrite len_app; lia).
+        replace (pre ++ pack g1) with (pre ++ pack g1 ++ []) by (rewrite app_nil_r; reflexivity).
+        rewrite (build_group_pack g1 pre [] Hw1 E (or_introl eq_refl)). rewrite bind_Ok. cbn [is_nil].
+        destruct (interp_group g1) as [p1 s1] eqn:Eg. cbv iota beta.
+        assert (Hskip : (if len pre + len (pack g1) + 0 - len pre =? 1
+                         then do b <- idx (pre ++ pack g1 ++ []) (len pre); Ok (b =? Separator) else Ok false) = Ok false).
+        { destruct (len pre + len (pack g1) + 0 - len pre =? 1) eqn:E1; [|reflexivity].
+          rewrite (idx_mid0 pre (pack g1) [] (len pre) eq_refl) by lia. rewrite bind_Ok. f_equal.
+          apply Z.eqb_neq. apply pack_head_not_sep; [apply wf_group_parts in Hw1; tauto|exact E]. }
+        rewrite Hskip, bind_Ok.
+        destruct f as [|f]; [unfold len in *; lia|]. cbn [build_top].
+        rewrite app_nil_r.
+        replace (len pre + len (pack g1) + 0 <? len (pre ++ pack g1)) with false by (rewrite len_app; lia).
+        cbn [fst snd selg]. unfold selg. cbn [snd]. reflexivity.
+    + (* a group followed by a separator *)
+      change (map pack (g1 :: g2 :: gl)) with (pack g1 :: pack g2 :: map pack gl) in *.
+      rewrite join_sep_cons2 in *. set (rest := join_sep (pack g2 :: map pack gl)) in *.
+      change (pack g2 :: map pack gl) with (map pack (g2 :: gl)) in rest.
+      change (filter keep (g1 :: g2 :: gl)) with (if keep g1 then g1 :: filter keep (g2 :: gl) else filter keep (g2 :: gl)).
+      destruct (list_eq_dec Z.eq_dec (pack g1) []) as [E|E].
+      * replace (keep g1) with false by (unfold keep; rewrite E; reflexivity).
+        rewrite E in *. cbn [app] in *. destruct fuel as [|f]; [lia|]. cbn [build_top].
+        pose proof (len_nonneg rest).
+        replace (len pre <? len (pre ++ Separator :: rest)) with true by (rewrite len_app, len_cons; lia).
+        unfold build_group. replace (0 <? len (pre ++ Separator :: rest)) with true by (rewrite len_app, len_cons; lia).
+        assert (Hlen : length (pre ++ Separator :: rest) = S (length pre + length rest)) by (rewrite app_length; cbn [length]; lia).
+        rewrite Hlen. rewrite build_loop_sep, bind_Ok. cbv iota beta.
+        replace (len pre + 1 - len pre =? 1) with true by lia.
+        rewrite idx_in by (rewrite len_app, len_cons; lia). rewrite !bind_Ok.
+        change (pre ++ Separator :: rest) with (pre ++ [Separator] ++ rest). rewrite nz_mid0 by (cbn; lia).
+        change (nz [Separator] 0 =? Separator) with true. cbv iota.
+        rewrite app_assoc. replace (len pre + 1) with (len (pre ++ [Separator])) by (rewrite len_app; reflexivity).
+        subst rest. apply IH; [exact Hw2|]. cbn [length] in Hf. lia.
+      * assert (0 < len (pack g1)) by (destruct (pack g1); [congruence|rewrite len_cons; pose proof (len_nonneg l); lia]).
+        replace (keep g1) with true by (unfold keep; destruct (pack g1); [congruence|reflexivity]). cbn [map fold_left].
+        destruct fuel as [|f]; [lia|]. cbn [build_top]. pose proof (len_nonneg rest).
+        replace (len pre <? len (pre ++ pack g1 ++ Separator :: rest)) with true by (rewrite !len_app, len_cons; lia).
+        rewrite (build_group_pack g1 pre (Separator :: rest) Hw1 E (or_intror (ex_intro _ rest eq_refl))). rewrite bind_Ok. cbn [is_nil].
+        destruct (interp_group g1) as [p1 s1] eqn:Eg. cbv iota beta.
+        replace (len pre + len (pack g1) + 1 - len pre =? 1) with false by lia. rewrite bind_Ok. cbv iota.
+        replace (pre ++ pack g1 ++ Separator :: rest) with ((pre ++ pack g1 ++ [Separator]) ++ rest) by (rewrite <- !app_assoc; reflexivity).
+        replace (len pre + len (pack g1) + 1) with (len (pre ++ pack g1 ++ [Separator])) by (rewrite !len_app; change (len [Separator]) with 1; lia).
+        subst rest. rewrite IH; [|exact Hw2|rewrite app_length in Hf; cbn [length] in Hf; lia].
+        rewrite <- app_assoc. cbn [app fst snd]. unfold selg at 2. cbn [snd]. reflexivity.
+Qed.
+
+(* ---- AddGroup: which groups end up in the bytes ------------------------------------------------------------ *)
+Fixpoint norm (started : bool) (gs : list (list setting)) : list (list setting) :=
+  match gs with
+  | [] => []
+  | ss :: r =>
+    match ss with
+    | [] => norm started r
+    | _ => if started || keep ss then ss :: norm true r else norm false r
+    end
+  end.
+
+Definition tails (gl : list (list setting)) : list Z := flat_map (fun ss => Separator :: pack ss) gl.
+
+Lemma join_sep_tails x gl : join_sep (map pack (x :: gl)) = pack x ++ tails gl.
+Proof.
+  revert x. induction gl as [|y gl IH]; intros x.
+  - cbn. rewrite app_nil_r. reflexivity.
+  - change (map pack (x :: y :: gl)) with (pack x :: pack y :: map pack gl). rewrite join_sep_cons2.
+    change (pack y :: map pack gl) with (map pack (y :: gl)). rewrite IH. reflexivity.
+Qed.
+
+Lemma fold_add_group : forall gs c,
+  fold_left add_group gs c =
+  if is_nil c then join_sep (map pack (norm false gs)) else c ++ tails (norm true gs).
+Proof.
+  induction gs as [|ss gs IH]; intros c; cbn [fold_left norm].
+  - destruct c; cbn [is_nil]; [reflexivity|]. cbn [tails flat_map]. rewrite app_nil_r. reflexivity.
+  - destruct ss as [|s ss]; [apply IH|]. cbn [add_group]. rewrite IH.
+    destruct c as [|x c]; cbn [is_nil orb app].
+    + unfold keep. destruct (pack (s :: ss)) as [|y l] eqn:E; cbn [is_nil negb].
+      * reflexivity.
+      * rewrite join_sep_tails, E. reflexivity.
+    + cbn [tails flat_map]. rewrite <- !app_assoc. reflexivity.
+Qed.
+
+Lemma pack_groups_norm gs : pack_groups gs = join_sep (map pack (norm false gs)).
+Proof. unfold pack_groups. rewrite fold_add_group. reflexivity. Qed.
+
+Lemma filter_keep_norm : forall gs st, filter keep (norm st gs) = filter keep gs.
+Proof.
+  induction gs as [|ss gs IH]; intros st; cbn [norm]; [reflexivity|].
+  destruct ss as [|s ss].
+  - rewrite IH. reflexivity.
+  - destruct st; cbn [orb].
+    + cbn [filter]. rewrite IH. reflexivity.
+    + destruct (keep (s :: ss)) eqn:E; cbn [filter]; rewrite E, IH; reflexivity.
+Qed.
+
+Lemma norm_wf : forall gs st, forallb wf_group gs = true -> forallb wf_group (norm st gs) = true.
+Proof.
+  induction gs as [|ss gs IH]; intros st H; cbn [norm]; [reflexivity|].
+  cbn [forallb] in H. apply andb_true_iff in H. destruct H as [H1 H2].
+  destruct ss as [|s ss]; [apply IH; exact H2|].
+  destruct (st || keep (s :: ss)); [cbn [forallb]; rewrite H1, IH by exact H2; reflexivity|apply IH; exact H2].
+Qed.
+
+Lemma norm_head_keep : forall gs, match norm false gs with [] => True | x :: _ => keep x = true end.
+Proof.
+  induction gs as [|ss gs IH]; cbn [norm]; [exact I|].
+  destruct ss as [|s ss]; [exact IH|]. cbn [orb]. destruct (keep (s :: ss)) eqn:E; [exact E|exact IH].
+Qed.
+
+(* ---- build (pack ...) = the meaning of the settings ------------------------------------------------------------ *)
+Lemma build_groups gs : wf_groups gs = true -> build true (pack_groups gs) = Ok (interp_groups gs).
+Proof.
+  intros Hw. unfold wf_groups in Hw. rewrite pack_groups_norm.
+  set (gl := norm false gs). assert (Hgl : forallb wf_group gl = true) by (apply norm_wf; exact Hw).
+  assert (Hf : filter keep gl = filter keep gs) by (apply filter_keep_norm).
+  unfold interp_groups. change (fun ss => negb (is_nil (pack ss))) with keep. rewrite <- Hf.
+  unfold build. destruct (len (join_sep (map pack gl)) =? 0) eqn:E.
+  - assert (gl = []).
+    { pose proof (norm_head_keep gs) as Hh. fold gl in Hh. destruct gl as [|x gl']; [reflexivity|].
+      rewrite join_sep_tails, len_app in E. unfold keep in Hh. pose proof (len_nonneg (tails gl')).
+      destruct (pack x) as [|y l]; [discriminate|]. rewrite len_cons in E. pose proof (len_nonneg l). lia. }
+    rewrite H. reflexivity.
+  - pose proof (build_top_join gl [] (S (length (join_sep (map pack gl)))) [] 0 Hgl ltac:(lia)) as T.
+    cbn [app] in T. change (len []) with 0 in T. rewrite T, bind_Ok. cbv iota beta. cbn [app].
+    destruct (map interp_group (filter keep gl)) as [|r1 [|r2 rs]]; reflexivity.
+Qed.
+
+Lemma build_pack ss : wf_group ss = true -> pack ss <> [] ->
+  build true (pack ss) = Ok (0, [fst (interp_group ss)]).
+Proof.
+  intros Hw Hne. pose proof (build_groups [ss]) as B. unfold wf_groups in B. cbn [forallb] in B. rewrite Hw in B. specialize (B eq_refl).
+  destruct ss as [|s ss]; [exfalso; apply Hne; reflexivity|].
+  change (pack_groups [s :: ss]) with (pack (s :: ss)) in B. rewrite B.
+  unfold interp_groups. cbn [filter]. replace (negb (is_nil (pack (s :: ss)))) with true by (destruct (pack (s :: ss)); [congruence|reflexivity]).
+  reflexivity.
+Qed.
